@@ -113,11 +113,24 @@ func c04Configs(thorough bool) []modelCfg {
 					continue
 				}
 				for _, b := range []bool{true, false} {
-					out = append(out, modelCfg{Prop: "C04", Rules: rules, Model: "Execute", B: b, Twice: true})
-					names := append([]string{}, ruleNames[:n]...)
-					names = append(names[1:], names[0])
-					out = append(out, modelCfg{Prop: "C04", Rules: rules, Model: "ExecuteSelectedRulesWithControl", B: b, Names: names, Twice: true})
+					for _, same := range []bool{false, true} {
+						out = append(out, modelCfg{Prop: "C04", Rules: rules, Model: "Execute", B: b, Twice: true, SameDc: same})
+						names := append([]string{}, ruleNames[:n]...)
+						names = append(names[1:], names[0])
+						out = append(out, modelCfg{Prop: "C04", Rules: rules, Model: "ExecuteSelectedRulesWithControl", B: b, Names: names, Twice: true, SameDc: same})
+					}
 				}
+			}
+		}
+	}
+	// a rule that fails inside a conc block (its members run on goroutines of their own): every schedule
+	// with <=2 preemptions; the policy must see the failure whichever member finishes last
+	for _, ft := range []string{"conc {\n    cnt.C6 = 1 / 0\n    cnt.C5 = 2\n  }", "conc {\n    nosuch(1)\n    cnt.C5 = 2\n  }"} {
+		for _, pos := range []int{0, 1} {
+			rules := []ruleCfg{{Name: ruleNames[0], Sal: 9}, {Name: ruleNames[1], Sal: 6}, {Name: ruleNames[2], Sal: 3}}
+			rules[pos].Fault = ft
+			for _, b := range []bool{true, false} {
+				out = append(out, modelCfg{Prop: "C04", Rules: rules, Model: "Execute", B: b, Sched: 2})
 			}
 		}
 	}
@@ -176,7 +189,7 @@ func init() {
 		BudgetQuick: 150 * time.Second,
 		BudgetThor:  25 * time.Minute,
 		Kind:        "schedules",
-		Rule: "all rule sets of 1..4(5) rules with saliences from {-1, 0, 2, absent} (every pattern incl. ties/negatives) x every failing subset x both policy values x {Execute, ExecuteSelectedRules, ExecuteSelectedRulesWithControl}; the same with five real fault kinds (ill-typed store into an injected field, division by zero, unknown function, unknown field, ill-typed operand) instead of the panicking observer, each call made twice on the same engine and data context; " +
+		Rule: "all rule sets of 1..4(5) rules with saliences from {-1, 0, 2, absent} (every pattern incl. ties/negatives) x every failing subset x both policy values x {Execute, ExecuteSelectedRules, ExecuteSelectedRulesWithControl}; the same with five real fault kinds (ill-typed store into an injected field, division by zero, unknown function, unknown field, ill-typed operand) instead of the panicking observer (and by a failing member of a conc block, under every schedule with <=2 preemptions), each call made twice on the same engine (with a data context of its own / on the same builder and data context); " +
 			"plus arrival histories: every insertion order via BuildRuleWithIncremental, every incremental salience change, and incremental calls carrying several rules at once (adds mixed with replacements and salience changes) under every map-iteration order inside the builds; each case is one deterministic execution on the real engine judged against the staged reference plan (one-at-a-time, non-increasing salience, exactly once, stop/continue policy, error iff failure, per-rule effect counters)",
 		Assume: []string{"injected observer functions terminate"},
 		Run: func(c *hx.Ctx) {
